@@ -2091,7 +2091,10 @@ func (interp *Interpreter) cfg(root *node, sc *scope, importPath, pkgName string
 					n.typ = sym.typ
 					n.sym = sym
 					n.recv = sym.recv
-					n.rval = sym.rval
+					if sym.kind != varSym {
+						// The value of the initializer of a variable is not the value of the variable.
+						n.rval = sym.rval
+					}
 				} else {
 					err = n.cfgErrorf("undefined selector: %s.%s", pkg, name)
 				}
